@@ -50,6 +50,21 @@ Theorem C03_scale_gauge_independent : forall (R : CRing) (ts : list (nat * T3 R)
 Proof. exact scale3_gauge_independent. Qed.
 Print Assumptions C03_scale_gauge_independent.
 
+(* exactness of scale over the ring: for EVERY scalar c -- real, purely imaginary, of any magnitude -- the dense result is
+   c times the dense operand; the model has no threshold and no branch on c (the code's only branch, np.iscomplex(val), selects
+   the dtype, not the value).  Composition and homogeneity of the operator-state product follow. *)
+Theorem C03_scale_compose : forall (R : CRing) (ts : list (nat * T3 R)) k k' c c' s,
+  k < length ts -> k' < length ts ->
+  amp (scale_at3 k' c' (scale_at3 k c ts)) s = rmul R (rmul R c' c) (amp ts s).
+Proof. exact scale3_compose. Qed.
+Print Assumptions C03_scale_compose.
+
+Theorem C03_apply_homogeneous : forall (R : CRing) (W : list (nat * T4 R)) (a : list (nat * T3 R)) dqs k c s',
+  length W = length a -> length dqs = length a -> 0 < lastdim 1 a -> k < length a ->
+  amp (apply3 1 dqs W (scale_at3 k c a)) s' = rmul R c (amp (apply3 1 dqs W a) s').
+Proof. exact apply3_homogeneous. Qed.
+Print Assumptions C03_apply_homogeneous.
+
 Theorem C03_conj_state : forall (R : CRing) (ts : list (nat * T3 R)) s, amp (conj3 ts) s = rcj R (amp ts s).
 Proof. exact conj3_amp. Qed.
 Print Assumptions C03_conj_state.
@@ -302,3 +317,11 @@ Example C03_ex_conj_trans_labels :
   qntot (conj_trans_meta m) = -1 /\ Llab (conj_trans_meta m) 2 0 = qntot (conj_trans_meta m) /\
   Llab (conj_trans_meta_prefix m) 2 0 <> - Llab m 2 0.
 Proof. cbv zeta. split; [|split]; vm_compute; [reflexivity|reflexivity|discriminate]. Qed.
+
+(* a purely imaginary scalar is not "almost real": scaling the Gaussian-integer image of the example state by i multiplies
+   every amplitude by i (the amplitude 10 becomes 10 i), it does not annihilate or truncate it *)
+Example C03_ex_scale_imaginary :
+  let ts : list (nat * T3 GiRing) :=
+    [(2%nat, @of3 GiRing (zr3 [[[2; 0]; [0; 3]]])); (1%nat, @of3 GiRing (zr3 [[[0]; [5]]; [[7]; [0]]]))] in
+  amp (@scale_at3 GiRing 1%nat (0, 1) ts) [0%nat; 1%nat] = (0, 10).
+Proof. cbv zeta. vm_compute. reflexivity. Qed.
